@@ -80,7 +80,7 @@ SPEC = dict(
     shards=16,
     rule=("case = rule set + cascade scope + history of events + worker count 1..4, run through a real Processor "
           "(AddEventAndWait, or AddEvent for all and Finish) and a RuleIndex; a schedule may put Finish/AddRule/Start or Reset "
-          "between events; actions of chosen rules return an error under both values of failOnFirstError (distinct priorities then). "
+          "between events; AddEvent also from one goroutine per event (mode c); Rules()/Workers() must report the accepted rules / the worker count; actions of chosen rules return an error under both values of failOnFirstError (distinct priorities then). "
           "Compared per event: the sorted multiset of executed rule names, the SET of Match names and — only when some rule ran — "
           "IsTriggering and whether AddEvent returned a monitor (the property leaves the pre-check free when nothing fires); per rule: "
           "whether AddRule returned an error. "
@@ -88,7 +88,7 @@ SPEC = dict(
           "statematch incl. lists and maps / priority / suppresses) in a real interpreter runtime, events added with addEvent / "
           "addEventAndWait and a scope map with true and false entries at nested paths (or omitted); compared: the sorted executed "
           "sink names per event (x.mark in the sink body); also non-string statematch / state / scope keys, numeric kindmatch and "
-          "scopematch items, `scopematch []`, raising sinks under both flag values, sinks that add events as children of the cascade "
+          "scopematch items and event kinds, nested lists/maps as state values, negative and fractional priorities, unknown names in suppresses, `scopematch []`, raising sinks under both flag values, sinks that add events as children of the cascade "
           "or with a scope map of their own. Regex state patterns exist only at the engine level (createRule copies values). "
           "Non-trivial = for at least one event of the case a kind pattern of some rule matches."),
     exhaustive=("every single rule over segments {a,b,*}, depth <=2, <=2 patterns, state keys {k,l} values {nil,1,'x',[1],{'a':1}} "
@@ -107,6 +107,10 @@ SPEC = dict(
         "values: Go equality on hashable values / reflect.DeepEqual on lists and maps is taken as an equivalence whose classes the harness "
         "assigns; NaN (not equal to itself) is a fresh class per occurrence; +0/-0 are one class and -0 is replaced by +0 where a regex looks "
         "at the value's text; a value for which reflect's Comparable() holds but hashing panics (array/struct holding a slice) is outside ECAL's value universe",
+        "unobservable by construction: the cache invalidation inside Reset (after Reset there are no rules, a stale 'triggering' entry only "
+        "processes an event that runs nothing, and the next AddRule drops the cache anyway) — a mutant removing it is not caught and cannot be; "
+        "likewise a cached 'triggering' for an event that fires nothing (the property leaves the pre-check free there)",
+        "not reached on purpose: getters eventProcessor.ID, UnitTestResetIDs (no clause depends on them); ECAL function values as statematch values",
         "theorems: events are processed one at a time (AddEvent = pre-check + ProcessEvent atomically); concurrency of workers is only exercised by the tie",
     ],
     decode=decode,
